@@ -171,8 +171,18 @@ func (r UnsafeGoMap[K, V]) Updated(k K, v V) MapBase[K, V] {
 
 func (r UnsafeGoMap[K, V]) Iterator() Iterator[Tuple2[K, V]] {
 	seq := []Tuple2[K, V]{}
+	if ks := verifRangeOrder(r); ks != nil {
+		// only under the build tag verif and with a hook installed: the simulator owns the order of this range and
+		// gets a yield point before every entry is read (entries removed meanwhile are skipped, as a Go range may do)
+		for _, k := range ks {
+			verifYield("gomap.range")
+			if v, ok := r[k]; ok {
+				seq = append(seq, Tuple2[K, V]{k.(K), v})
+			}
+		}
+		return IteratorOfSeq(seq)
+	}
 	for k, v := range r {
-		verifYield("gomap.range")
 		seq = append(seq, Tuple2[K, V]{k.(K), v})
 	}
 	return IteratorOfSeq(seq)
